@@ -12,7 +12,17 @@ RULE = ("logical documents of the shared subset (strings, ints, yes/no, n/8 floa
         "LogicDoc.to_text / to_bin are run: BinDoc.enc_doc (to_bin e d) must reproduce dedoc.render_bin byte for byte (all documents), "
         "TextDoc.render (to_text d) must reproduce dedoc.render_text where the rendering is of that form (~53%: no ghost {} and no `key {` "
         "without `=`); TextDeSpec.spec_value on to_text d, BinDoc.spec_value on to_bin e d and dedoc.expected must be equal, the text paths "
-        "must return the former and the binary paths the latter; plus hand-made pairs from corpus/C10/spec_tie.case")
+        "must return the former and the binary paths the latter; plus hand-made pairs from corpus/C10/spec_tie.case.  "
+        # [a_c10]
+        "kinds (props/C10_kinds.py, audit/C10.md): deterministic sweeps over the value kinds -- integers at every width boundary x every token "
+        "that fits (I64 included) x 12 targets; eu4 F32 (3 decimals) / eu4 F64 (5 decimals) / raw floats, numerals full and trimmed, f32 and f64 "
+        "targets; Date and DateHour at the years -5000 .. 0 .. 32767 (and -32768 / -5001) x {I32, quoted, unquoted string token} x short / "
+        "zero-padded text; strings with non-ASCII, quotes and backslashes under both encodings as values and as keys (quoted / unquoted / token "
+        "id); rgb with 3 / 4 channels up to u32::MAX; empty and nested containers; unknown tokens as keys / values under the three strategies; "
+        "`any` targets on string-only documents -- each at 7 document positions, through text slice / tape / ObjectReader / TokenReader / "
+        "from_*_reader / TextDeserializer::from_*_slice / from_encoded_tape and binary builder tape / slice / reader, BinaryFlavor::deserialize_slice / "
+        "deserialize_reader and the deserializer-returning builder methods; oracle: the value computed from the abstract document for each format, "
+        "equality of the two where the property promises it; the same cases against the extracted walks (kinds_walk_text / kinds_walk_bin)")
 TRUSTED = ["serde's primitive visitors; the flavor arithmetic is recomputed exactly in Python",
            "Date::from_binary / Date::parse agreement is C13 (proved there); here it is exercised through both deserializers",
            # [spec_tie]
@@ -29,7 +39,12 @@ ASSUMPTIONS = ["shared subset: every token id is resolvable, no operators other 
                # [spec_tie]
                "spec_tie scope: the text specification answers UNFIT where a colour is visited (TextDeSpec has no headers) and for a map / struct "
                "target on the empty `{ }` (an array in TextDoc); there only the binary specification is compared (counted as tie_text_coq_unfit_*). "
-               "The text PATHS are compared with the text specification only where the text bytes are TextDoc.render (to_text d)"]
+               "The text PATHS are compared with the text specification only where the text bytes are TextDoc.render (to_text d)",
+               # [a_c10]
+               "kinds: counted, not asserted equal (outside the shared subset): f32 / f64 targets on integers above 2^53 (text refuses the numeral), "
+               "an f64 target on an F32 token (the f32 is widened), eu4 F32 payloads at or above 2^24 into f32, dates below year -5000 as I32, a "
+               "DateHour into Date / a Date into DateHour, numerals read as dates, unknown tokens whose name the target needs (captured field, map "
+               "key, any key under the Error strategy); `any` targets leave the text STREAM paths out (its deserialize_any cannot look ahead)"]
 
 
 def run(ctx):
@@ -107,6 +122,12 @@ def run(ctx):
 
     probes(ctx)
 
+    # >>> a_c10 (wave 4): deterministic sweeps over the value kinds of the logical document x every public text and binary
+    # entry point, with expectations computed from the abstract document (props/C10_kinds.py; audit/C10.md)
+    from props import C10_kinds
+    C10_kinds.run(ctx)
+    # <<< a_c10
+
     # scalar level of both formats against the extracted Serde model
     from props import descalar
     ctx.correspond("scalar-both", descalar.text_cases(ctx, ctx.scale(100, 1000)) + descalar.bin_cases(ctx, ctx.scale(60, 600)), nontrivial=nt)
@@ -183,5 +204,6 @@ def search(ctx):
 CLAIM = {
     "text": "one logical document is rendered as text and as binary and deserialized into the same runtime shape through the text slice/reader paths and the three binary paths; all results must be equal and equal to the independently computed value; Coq: see coverage.theorems",
     "note": "[spec_tie] LogicDoc.to_text / to_bin and both specifications are extracted and run on the generated documents (renderings byte for byte against props/dedoc.py, TextDeSpec.spec_value = BinDoc.spec_value = dedoc.expected = the implementation's values; stream spec_tie, keys tie-text-* / tie-bin-*); LogicDoc.shared is a Prop and is not run. Props/C10_link.v (LogicDoc.v: logical documents with a text rendering to_text and a binary rendering to_bin under an encoding choice e): (1) per-scalar agreement of the text typed hints and the binary tokens for integers in (i64::MIN, u64::MAX] on all four token widths and every target width (refusals included), yes/no vs BOOL, strings as quoted / unquoted / resolvable id, dates Y.M.D vs I32 (through C13), floats under float_ok; (2) C10_spec_agree: TextDeSpec.spec_value on to_text d = BinDoc.spec_value on to_bin e d for every shared shape and every admissible encoding choice (nested objects, arrays, duplicate keys, Option, unknown fields, Once/Last/Collect, maps, tuples, enums); (3) C10_text_bin_agree_partial: composed with the C02 and C04 walk theorems, the text tape and stream paths and the three binary paths (any fitting capacity, any fault-free schedule) return the same value; (4) C10_link_rgb_typed_agree: a colour captured as (String, Vec<uN>) is read identically by the text tape path and the binary paths for all channel values, C10_link_rgb_any_refuted / C10_link_i64_min_refuted: the two witnesses replayed by the `probes` stream. C10_shared_fits: a shared target fits the text rendering; C10_text_bytes_bin_agree_partial: the same from the text bytes under every layout (through C01_parse_render). Not proved: colours at arbitrary positions of a document (TextDeSpec has no headers), the byte-level lexing of the text STREAM path (C07) is not composed. Props/C10_walk.v: the binary specification is independent of the encoding choices and every binary path on every encoding returns it. Props/C10.v: the old Serde.v-level scalar agreement.",
+    "note_wave4": "[a_c10] Props/C10_kinds.v: C10_link_datehour (Y.M.D.H through DateHourVisitor::visit_str = the I32 of DateHour::to_binary through visit_i32 = the same characters as a binary string token: the value (y, m, d, h), all calendar days of -5000..32767, hours 1..24), C10_link_date_both_value, C10_any_encoding_any_path (three admissible encoding choices of one logical document read by the tape / on-demand / stream entry points at their own fuel and the text tape path: one value -- completes C10_bin_any_path_any_encoding_partial for logical documents), C10_any_object_refuted (finding any-object-ondemand: a dynamically typed target on a nested object is a syntax error on the on-demand and stream binary paths).  Stream kinds: see RULE; audit: audit/C10.md",
     "technique": "machine-checked proof in Coq over an executable model + specification oracle on the implementation",
 }
